@@ -531,10 +531,12 @@ example : ReaderOK (fun b => callIO false b innerBody) :=
 example : callIOS false srcDemo [.prim (.rd 1), .call (fun b => callIO false b innerBody), .prim .undo] =
     { srcDemo with ri := 3 } := by decide
 
-/-- A callee that leaves from inside an `io_limit` block (the compiler accepts that, KNOWN_FINDINGS
-`iocontract:quirk:…`) hands back a shortened `wi` and is NOT `ReaderOK`; a caller that goes on reading
-up to its own (stale) `io2` then returns `ri > wi`: the hypothesis of the composition theorem is
-needed. -/
+/-- Why lang/check must reject a `return` (yield, jump, suspending call) inside an `io_limit` body, as
+it does since fixes/C08-check-io-block-escapes.patch (KNOWN_FINDINGS `iocontract:quirk:…`, now
+`fixed:`): a callee that left from inside such a block would hand back a shortened `wi` and would NOT
+be `ReaderOK`; a caller that goes on reading up to its own (stale) `io2` would then return `ri > wi`.
+The hypothesis of the composition theorem is needed, and for accepted programs it is provided by
+`balanced_calls_ReaderOK` (bodies whose blocks are complete). -/
 example :
     let bad : Buf → Buf := fun b => callIO false b [.limitBegin 0]
     ¬ (callIOS false srcDemo [.call bad, .prim (.rd 2)]).valid := by decide
